@@ -608,7 +608,23 @@ fn run_batch_check(op: &Op) -> Vec<u8> {
     }
     let compress = if op.c & 1 == 0 { Compress::Yes } else { Compress::No };
     let mut bytes = Vec::new();
-    let res = match (op.c >> 1) % 4 {
+    let res = match (op.c >> 1) % 7 {
+        4 => {
+            // nested containers: each level forwards its elements to one batch check
+            let w: Vec<Vec<G1A>> = v.chunks(3).map(|c| c.to_vec()).collect();
+            w.serialize_with_mode(&mut bytes, compress).unwrap();
+            Vec::<Vec<G1A>>::deserialize_with_mode(&bytes[..], compress, Validate::Yes).map(|r| ser(&r))
+        },
+        5 => {
+            let w: Vec<[G1A; 2]> = v.chunks(2).map(|c| [c[0], *c.last().unwrap()]).collect();
+            w.serialize_with_mode(&mut bytes, compress).unwrap();
+            Vec::<[G1A; 2]>::deserialize_with_mode(&bytes[..], compress, Validate::Yes).map(|r| ser(&r))
+        },
+        6 => {
+            let w: Vec<Option<G1A>> = v.iter().enumerate().map(|(i, p)| if i % 4 == 1 { None } else { Some(*p) }).collect();
+            w.serialize_with_mode(&mut bytes, compress).unwrap();
+            Vec::<Option<G1A>>::deserialize_with_mode(&bytes[..], compress, Validate::Yes).map(|r| ser(&r))
+        },
         0 => {
             v.serialize_with_mode(&mut bytes, compress).unwrap();
             Vec::<G1A>::deserialize_with_mode(&bytes[..], compress, Validate::Yes).map(|r| ser(&r))
@@ -651,7 +667,7 @@ fn gen_batch_check(rng: &mut Rng) -> (u64, u64, u64) {
         7 => 0,
         _ => rng.below(a + 1) as u64,
     };
-    (a as u64, b, rng.below(8) as u64)
+    (a as u64, b, rng.below(14) as u64)
 }
 
 // ---------------------------------------------------------------- multilinear / multivariate
